@@ -26,9 +26,9 @@ ID = "C14"
 LEVEL = "exploration"
 DECIDING = ["C14.detailed_balance", "C14.pattern_is_saved_adjacency", "C14.decomposition"]
 RULE = ("pipelines = (grid spec: rotation algorithm x n_b in {1,4,5,8}, direction algorithm x n_o in {4,7,12,13}, 2-3 unequal radii, factor in "
-        "{0.5,1,2}, both position modes (Cartesian only for direction sets that surround the origin); energies uniform +-20 kJ/mol written to a "
+        "{0.5,1,2}, both position modes (Cartesian only for direction sets that surround the origin); energies uniform +-20 kJ/mol around 0, -4e5 or +1e4 kJ/mol written to a "
         "generated xvg file; T in [200,400] K; solver settings (sigma None,'LR'), (small positive sigma,'LM'), the workflow's own rule with its "
-        "k=12, k in {3,6}, tol 1e-5 and 1e-10). Non-trivial = connected grid with >=14 cells, both neighbour families; distinct by pipeline digest")
+        "k=12, k in {3,6}, tol 1e-5 and 1e-10; for half of the pipelines one DecompositionTool object serves all settings in random order). Non-trivial = connected grid with >=14 cells, both neighbour families; distinct by pipeline digest")
 ASSUMPTIONS = ["the zero spectral shift shipped as SQRA default is excluded by the statement (singular shift-invert)",
                "eigenvalues compared with numpy.linalg.eigvals at 10*tol*rho(Q) (+1e-9*rho); the stationary vector is judged only when the spectral gap exceeds 1000x that resolution, at 100*tol*rho/gap of its largest entry",
                "ArpackNoConvergence is a solver limit: counted as skipped", "workflow rule bodies are executed by exec() with stub namespaces (no "
@@ -213,7 +213,9 @@ def pipeline(spec, rng, nprng, d, repo):
         REC.classes["stage grid: GridWriter"] += 1
     check_workflow_files(paths, b, o, t, f, cart)
     n = len(np.load(paths["full_array"]))
-    energies = nprng.uniform(-20, 20, size=n)
+    # arbitrary per-cell energies: interaction energies around zero, or total (QM-style) energies with a huge common offset
+    offset = spec.get("energy_offset", 0.0)
+    energies = offset + nprng.uniform(-20, 20, size=n)
     epath = os.path.join(d, "energy.xvg")
     write_energy(epath, energies, rng)
     # ---- stage 2: files -> rate matrix -------------------------------------------------------------------
@@ -284,6 +286,13 @@ def pipeline(spec, rng, nprng, d, repo):
             settings.append(("direct", dict(tol=rng.choice([1e-5, 1e-10]), maxiter=100000, sigma=None, which="LR", k=kk)))
             settings.append(("direct", dict(tol=1e-10, maxiter=100000, sigma=gap * rng.uniform(0.05, 0.4), which="LM", k=kk)))
             settings.append(("direct", dict(tol=1e-8, maxiter=100000, sigma=None, which=rng.choice(["SR", "LM", "SM"]), k=kk)))
+    shared_tool = None
+    if spec.get("shared_tool"):
+        # history: ONE DecompositionTool asked with several settings in turn (results must not depend on earlier requests)
+        Ms = sparse.load_npz(rate_path)
+        CTX[id(Ms)] = ctx
+        shared_tool = transitions.DecompositionTool(Ms)
+        rng.shuffle(settings)
     for how, kw in settings:
         try:
             if how == "workflow" and spec["route"] == "workflow" and not fallback:
@@ -296,10 +305,13 @@ def pipeline(spec, rng, nprng, d, repo):
                 kw2 = dict(kw)
                 if isinstance(kw2["sigma"], str):
                     kw2["sigma"] = None if kw2["sigma"] == "None" else float(kw2["sigma"])
-                M = sparse.load_npz(rate_path)
-                CTX[id(M)] = ctx
-                transitions.DecompositionTool(M).get_decomposition(**kw2)
-                CTX.pop(id(M), None)
+                if shared_tool is not None:
+                    shared_tool.get_decomposition(**kw2)
+                else:
+                    M = sparse.load_npz(rate_path)
+                    CTX[id(M)] = ctx
+                    transitions.DecompositionTool(M).get_decomposition(**kw2)
+                    CTX.pop(id(M), None)
                 REC.classes["stage decomposition: library call"] += 1
         except Exception as e:
             if type(e).__name__ in ("ArpackNoConvergence", "ArpackError"):
@@ -340,7 +352,7 @@ def make_spec(rng):
     cart = rng.random() < 0.4 and surrounds(oalg, n_o)
     return {"b": f"{balg}_{n_b}" if n_b > 1 else "1", "o": f"{oalg}_{n_o}", "t": t, "factor": rng.choice([0.5, 1, 2]), "cartesian": cart,
             "T": rng.choice([200.0, 273.0, 300.0, 400.0]), "D": rng.choice([0.1, 1.0, 27.5]), "route": rng.choice(["workflow", "workflow", "library"]),
-            "n_b": n_b}
+            "n_b": n_b, "energy_offset": rng.choice([0.0, 0.0, -4.0e5, 1.0e4]), "shared_tool": rng.random() < 0.5}
 
 
 def run_shard(spec):
@@ -352,7 +364,7 @@ def run_shard(spec):
         drive(make_spec(rng), rng, nprng, repo)
     # small grids on which ARPACK converges before rounding noise can re-introduce the stationary vector (regression cases of F15):
     # every run contains them, whatever the seed
-    fixed = {0: {"b": "1", "o": "randomS_7", "t": "[0.35, 0.4, 0.5]", "factor": 2, "cartesian": False, "T": 400.0, "D": 27.5, "route": "library", "n_b": 1},
+    fixed = {0: {"b": "1", "o": "randomS_7", "t": "[0.35, 0.4, 0.5]", "factor": 2, "cartesian": False, "T": 400.0, "D": 27.5, "route": "library", "n_b": 1, "shared_tool": True, "energy_offset": -4.0e5},
              1: {"b": "1", "o": "ico_12", "t": "[0.2, 0.3]", "factor": 1, "cartesian": False, "T": 300.0, "D": 1.0, "route": "workflow", "n_b": 1},
              2: {"b": "4", "o": "cube3D_4", "t": "[0.2, 0.35]", "factor": 2, "cartesian": False, "T": 273.0, "D": 1.0, "route": "library", "n_b": 4}}
     k = spec["rseed"] % 1000
